@@ -75,10 +75,13 @@ class Checker:
         """all checks for one ordered pair of descriptions"""
         C, H, ctx = self.C, self.H, self.ctx
         L, R = self.svc(l, egs), self.svc(r)
-        offer = R.create_offer_entry(5)
-        find = R.create_find_entry(5)
+        # the TTL of an entry (0 = stop, 1.., 0xFFFFFF = forever) and the counter of a Subscribe are no part of any match
+        self.n = getattr(self, "n", 0) + 1
+        ttl = (5, 0, 0xFFFFFF, 1, 3, 0)[self.n % 6]
+        offer = R.create_offer_entry(ttl)
+        find = R.create_find_entry(ttl)
         sub = H.SOMEIPSDEntry(sd_type=H.SOMEIPSDEntryType.Subscribe, service_id=r[0], instance_id=r[1],
-                              major_version=r[2], ttl=3, minver_or_counter=egid)
+                              major_version=r[2], ttl=(3, 0, 0xFFFFFF)[self.n % 3], minver_or_counter=egid | ((self.n % 4) * 5 << 16))
         got = dict(
             offer=L.matches_offer(offer), find=L.matches_find(find),
             service=L.matches_service(R), subscribe=L.matches_subscribe(sub),
